@@ -19,8 +19,8 @@ from vf import core, frames, fresh, fresh_tasks
 PROPERTY = "C07"
 RULE = (
     "cases = histories (operation sequences): build(formula, frame), evaluate-common(design, frame), "
-    "evaluate-group(design, frame), set-config(mode), model_description(formula), rebuild(design) over a pool of 8 "
-    "formulas x 3 frames (frames with unseen levels included so that the configuration matters); all histories of "
+    "evaluate-group(design, frame), set-config(mode), model_description(formula), rebuild(design) over a pool of 9 "
+    "formulas x 4 frames (one with unseen levels so that the configuration matters, one with the shape of the training frame; one formula takes a function from extra_namespace and all builds share one captured Environment); all histories of "
     "length <= 3 over a reduced pool are enumerated, longer ones (up to 30 steps) come from a Hypothesis rule-based "
     "state machine; distinct = distinct history; non-trivial = some design is evaluated at least twice with different "
     "frames, or evaluated after another design using the same transform was built, or after a configuration change"
@@ -39,7 +39,9 @@ FORMULAS = [
     "y ~ S(f) + T(g, 'g1'):x",
     "np.abs(y) ~ standardize(z) + (z | g:f)",
     "y ~ f*g + binary(h, 'lo') + I(x * z)",
+    "y ~ ext(x) + f",  # `ext` comes from extra_namespace; successive builds pass different functions under that name
 ]
+USES_EXT = {8}
 MODES = ["error", "warning", "silent"]
 
 
@@ -89,8 +91,14 @@ class History:
         config["EVAL_UNSEEN_CATEGORIES"] = "error"
         self.frames = [frames.build(s) for s in FRAMES]
         self.pristine = [f.copy(deep=True) for f in self.frames]
-        self.namespace = {"np": np}
-        self.ns_ids = {k: id(v) for k, v in self.namespace.items()}
+        from formulae.environment import Environment
+
+        self.env = Environment.capture(0)  # one captured environment, reused by every build of this history
+        self.builds = 0
+        self.namespaces = {v: {"np": np, "ext": fresh_tasks.EXT[v]} for v in ("double", "triple")}
+        self.namespace = self.namespaces["double"]
+        self.ns_ids = {v: {k: id(o) for k, o in d.items()} for v, d in self.namespaces.items()}
+        self.variants = []
         self.registry = {k: v for k, v in TRANSFORMS.items()}
         self.flags = set()
 
@@ -101,13 +109,17 @@ class History:
         self.ops.append(["build", fi, di])
         if any(FORMULAS[fi].split("~")[1].count(t) and FORMULAS[d[0]].split("~")[1].count(t) for d in self.designs for t in ("scale(", "center(", "bs(", "poly(")):
             self.flags.add("shared_transform_kind")
-        res = fresh_tasks.guarded(lambda: self._build(design_matrices, fi, di))
-        self.pairs.append((("build", fi, di), {"op": "build", "formula": FORMULAS[fi], "train": FRAMES[di]}, res, len(self.ops) - 1))
+        variant = ("double", "triple")[self.builds % 2]
+        self.builds += 1
+        res = fresh_tasks.guarded(lambda: self._build(design_matrices, fi, di, variant))
+        ext = variant if fi in USES_EXT else None
+        self.pairs.append((("build", fi, di, ext), {"op": "build", "formula": FORMULAS[fi], "train": FRAMES[di], "extra": ext}, res, len(self.ops) - 1))
 
-    def _build(self, design_matrices, fi, di):
+    def _build(self, design_matrices, fi, di, variant):
         with core.Guard():
-            dm = design_matrices(FORMULAS[fi], self.frames[di], extra_namespace=self.namespace)
+            dm = design_matrices(FORMULAS[fi], self.frames[di], env=self.env, extra_namespace=self.namespaces[variant])
         self.designs.append((fi, di, dm, self._snapshot(dm)))
+        self.variants.append(variant if fi in USES_EXT else None)
         return fresh_tasks.observe_design(dm)
 
     def rebuild(self, k):
@@ -137,8 +149,9 @@ class History:
             return fresh_tasks.observe_matrix(out)
 
         res = fresh_tasks.guarded(run)
-        self.pairs.append((("eval_" + part, fi, ti, self.mode, di), {"op": "eval_" + part, "formula": FORMULAS[fi], "train": FRAMES[ti], "mode": self.mode, "frame": FRAMES[di]},
-                           res, len(self.ops) - 1))
+        ext = self.variants[k]
+        self.pairs.append((("eval_" + part, fi, ti, self.mode, di, ext),
+                           {"op": "eval_" + part, "formula": FORMULAS[fi], "train": FRAMES[ti], "mode": self.mode, "frame": FRAMES[di], "extra": ext}, res, len(self.ops) - 1))
 
     def _index_of_build(self, k):
         seen = -1
@@ -212,9 +225,9 @@ class History:
             if not same:
                 self.fail("caller_frame", f"after step {step} {self.ops[step]}: the caller's frame {i} was modified", "frame")
                 self.frames[i] = p.copy(deep=True)
-        if {k: id(v) for k, v in self.namespace.items()} != self.ns_ids:
-            self.fail("caller_namespace", f"after step {step} {self.ops[step]}: the caller's namespace changed: {sorted(self.namespace)}", "namespace")
-            self.ns_ids = {k: id(v) for k, v in self.namespace.items()}
+        if {v: {k: id(o) for k, o in d.items()} for v, d in self.namespaces.items()} != self.ns_ids:
+            self.fail("caller_namespace", f"after step {step} {self.ops[step]}: a namespace dict passed by the caller changed", "namespace")
+            self.ns_ids = {v: {k: id(o) for k, o in d.items()} for v, d in self.namespaces.items()}
         if config["EVAL_UNSEEN_CATEGORIES"] != self.mode:
             self.fail("config", f"after step {step} {self.ops[step]}: configuration is {config['EVAL_UNSEEN_CATEGORIES']!r}, set to {self.mode!r}", "config")
             config["EVAL_UNSEEN_CATEGORIES"] = self.mode
@@ -329,7 +342,11 @@ def _pairs_worker(ctx, arg):
                         continue
                     if ctx.skip():
                         return
-                    run_ops(ctx, [["build", fi, 0], ["set_config", m1], ["eval_" + p1, 0, d1], ["set_config", m2], ["eval_" + p2, 0, d2]])
+                    if fi in USES_EXT:
+                        # two builds of the formula that takes a function from extra_namespace, then evaluate both
+                        run_ops(ctx, [["build", fi, 0], ["build", fi, 0], ["set_config", m1], ["eval_" + p1, 0, d1], ["set_config", m2], ["eval_" + p2, 1, d2]])
+                    else:
+                        run_ops(ctx, [["build", fi, 0], ["set_config", m1], ["eval_" + p1, 0, d1], ["set_config", m2], ["eval_" + p2, 0, d2]])
     fresh.shutdown()
 
 
@@ -388,21 +405,14 @@ def prefill():
     tasks = []
     for fi, f in enumerate(FORMULAS):
         tasks.append((core.canon(("describe", fi)), {"op": "describe", "formula": f}))
-        for ti in (0, 1):
-            tasks.append((core.canon(("build", fi, ti)), {"op": "build", "formula": f, "train": FRAMES[ti]}))
-            for mode in MODES:
-                for di in range(len(FRAMES)):
-                    for part in ("common", "group"):
-                        tasks.append((core.canon(("eval_" + part, fi, ti, mode, di)),
-                                      {"op": "eval_" + part, "formula": f, "train": FRAMES[ti], "mode": mode, "frame": FRAMES[di]}))
-    for fi in SMALL_F:
-        for ti in SMALL_D:
-            tasks.append((core.canon(("build", fi, ti)), {"op": "build", "formula": FORMULAS[fi], "train": FRAMES[ti]}))
-            for mode in MODES:
-                for di in range(len(FRAMES)):
-                    for part in ("common", "group"):
-                        tasks.append((core.canon(("eval_" + part, fi, ti, mode, di)),
-                                      {"op": "eval_" + part, "formula": FORMULAS[fi], "train": FRAMES[ti], "mode": mode, "frame": FRAMES[di]}))
+        for ext in (("double", "triple") if fi in USES_EXT else (None,)):
+            for ti in (0, 1, 2):
+                tasks.append((core.canon(("build", fi, ti, ext)), {"op": "build", "formula": f, "train": FRAMES[ti], "extra": ext}))
+                for mode in MODES:
+                    for di in range(len(FRAMES)):
+                        for part in ("common", "group"):
+                            tasks.append((core.canon(("eval_" + part, fi, ti, mode, di, ext)),
+                                          {"op": "eval_" + part, "formula": f, "train": FRAMES[ti], "mode": mode, "frame": FRAMES[di], "extra": ext}))
     os.environ["VERIF_FRESH_PROCS"] = str(core.NPROC)
     fresh.run_tasks(tasks)
     fresh.shutdown()
